@@ -42,7 +42,7 @@ MAX_FNS = {'np.maximum', 'np.max', 'max', 'np.nanmax', 'np.fmax', 'np.amax'}
 
 def run(ctx: Ctx):
   m = model(ctx)
-  for r in (r1, r2, r3, r4, r5, r6, r7, r10, r11, r12, r13, r14, r15, r17):
+  for r in (r1, r2, r3, r4, r5, r6, r7, r10, r11, r12, r13, r14, r15, r17, r18):
     ctx.guard(r, m)
   ctx.include('R-C01-8', 'merge leaves its operand intact and shares no'
               ' mutable state with it (R-C11-1, R-C11-2): a shard state that'
@@ -1067,7 +1067,7 @@ def r15(ctx: Ctx, m):
 
 
 _NAN_SKIPPING = {'nanmean', 'nanvar', 'nanstd', 'nanmedian', 'nanmin', 'nanmax', 'nanpercentile', 'nanquantile'}
-_NAN_SAFE = {'nanadd', 'where', 'isnan', 'nan_to_num', 'nansum', 'isfinite'}
+_NAN_SAFE = {'nanadd', 'where', 'isnan', 'nan_to_num', 'nansum', 'isfinite', 'fmin', 'fmax'}
 
 
 def r17(ctx: Ctx, m):
@@ -1091,18 +1091,27 @@ def r17(ctx: Ctx, m):
             v = kw.value
             if kw.arg and isinstance(v, ast.Call) and isinstance(v.func, ast.Attribute) and v.func.attr in _NAN_SKIPPING:
               fields[kw.arg] = v.func.attr
-        if isinstance(c, ast.Assign) and isinstance(c.value, ast.Call) and isinstance(
-            c.value.func, ast.Attribute) and c.value.func.attr in _NAN_SKIPPING:
-          for t in c.targets:
-            if is_self_attr(t):
-              fields[t.attr] = c.value.func.attr
+        if isinstance(c, ast.Assign):
+          # a field computed from a NaN-skipping reduction of the batch (directly or inside a combining call)
+          red = [y.func.attr for y in ast.walk(c.value) if isinstance(y, ast.Call) and isinstance(y.func, ast.Attribute)
+                 and y.func.attr in _NAN_SKIPPING]
+          if red:
+            for t in c.targets:
+              if is_self_attr(t):
+                fields[t.attr] = red[0]
     if not fields:
       continue
-    merge = ci.methods.get('merge')
-    if merge is None:
-      continue
-    n += 1
     names = set(fields) | {f.lstrip('_') for f in fields}
+    for merge in (ci.methods.get('merge'), ci.methods.get('add')):
+      if merge is None:
+        continue
+      n += 1
+      _r17_method(ctx, rule, ci, merge, fields, names)
+  ctx.floor(rule, 2, n)
+
+
+def _r17_method(ctx, rule, ci, merge, fields, names):
+  if True:
 
     def safe_call(x):
       return isinstance(x, ast.Call) and (
@@ -1117,6 +1126,13 @@ def r17(ctx: Ctx, m):
         return False, p
       if isinstance(expr, ast.Attribute) and isinstance(expr.value, ast.Name) and expr.attr in names:
         return True, False
+      if isinstance(expr, ast.Call) and isinstance(expr.func, ast.Attribute) and expr.func.attr in _NAN_SKIPPING:
+        return True, False          # NaN for a batch / dimension without a valid value
+      if isinstance(expr, ast.Call) and isinstance(expr.func, ast.Attribute) and expr.func.attr in ('minimum', 'maximum') and (
+          len(expr.args) >= 2):
+        subs = [scan(a, nanable, poisoned) for a in expr.args]
+        any_n = any(a for a, _ in subs)
+        return any_n, any_n or any(b for _, b in subs)      # np.minimum / np.maximum propagate NaN
       if isinstance(expr, ast.Name):
         return expr.id in nanable, expr.id in poisoned
       if isinstance(expr, ast.BinOp) and isinstance(expr.op, (ast.Add, ast.Sub)):
@@ -1173,15 +1189,54 @@ def r17(ctx: Ctx, m):
       if b:
         bad = st
         break
-    what = f'{ci.name}.merge: NaN-skipping statistics {sorted(fields)} combined NaN-aware'
+    what = f'{ci.name}.{merge.name}: NaN-skipping statistics {sorted(fields)} combined NaN-aware'
     if bad is None:
       ctx.ok(rule, merge, what, merge.node)
     else:
       ctx.fail(rule, merge, what,
-               f'{ci.name}.merge stores `{unparse(bad)[:90]}...`: a plain sum with an operand that is NaN wherever one side'
+               f'{ci.name}.{merge.name} stores `{unparse(bad)[:90]}...`: a plain sum / np.minimum / np.maximum with an operand that is NaN wherever one side'
                f' has no valid value ({sorted(fields)} come from {sorted(set(fields.values()))}); a dimension that is all-NaN'
                ' in one batch or shard becomes NaN for the whole stream (0 * NaN), although one batch with the same rows'
-               ' gives a number. Combine the terms with math_utils.nanadd / where(count > 0, ...)', node=bad)
+               ' gives a number. Combine the terms with math_utils.nanadd / where(count > 0, ...) / np.fmin / np.fmax', node=bad)
+
+
+def r18(ctx: Ctx, m):
+  rule = 'R-C01-18'
+  ctx.rule(rule, '"a metric value for one example never depends on which other examples happen to share its batch": the text'
+           ' aggregates look at their batch TEXT BY TEXT — in add(texts) the batch parameter is only iterated (for / '
+           'comprehension), measured (len) or tested for emptiness. Joining the texts of a batch into one string (or any'
+           ' other whole-batch use) lets a multi-word pattern or an n-gram match across the seam between two neighbouring'
+           ' texts: the count then depends on batch composition and on the order of the texts')
+  repo = ctx.repo
+  mi = repo.module('aggregates.text')
+  n = 0
+  for ci in mi.classes.values():
+    fi = ci.methods.get('add')
+    if fi is None or len(fi.params()) < 2:
+      continue
+    p = fi.params()[1]
+    n += 1
+    pm = parent_map(fi.node)
+    bad = None
+    for x in ast.walk(fi.node):
+      if not (isinstance(x, ast.Name) and x.id == p and isinstance(x.ctx, ast.Load)):
+        continue
+      par = pm.get(x)
+      ok = (isinstance(par, (ast.For, ast.comprehension)) and par.iter is x) or (
+          isinstance(par, ast.Call) and unparse(par.func) in ('len', 'bool', 'enumerate', 'iter') and par.args and par.args[0] is x
+          and (unparse(par.func) in ('len', 'bool') or isinstance(pm.get(par), (ast.For, ast.comprehension)))) or (
+              isinstance(par, (ast.If, ast.While, ast.IfExp)) and par.test is x) or (
+                  isinstance(par, ast.BoolOp)) or (isinstance(par, ast.UnaryOp) and isinstance(par.op, ast.Not))
+      if not ok:
+        bad = par if par is not None else x
+    what = f'{ci.name}.add: the batch `{p}` is processed text by text'
+    if bad is None:
+      ctx.ok(rule, fi, what, fi.node)
+    else:
+      ctx.fail(rule, fi, what,
+               f'`{unparse(bad)[:70]}` uses the whole batch `{p}` at once: what is computed from it (a joined string, a'
+               ' concatenation) spans several examples, so a match can straddle two neighbouring texts and the statistic'
+               ' depends on which texts share a batch and in which order', node=bad)
   ctx.floor(rule, 2, n)
 
 
@@ -1190,6 +1245,12 @@ from mlmverif.selfcheck import B, OK  # noqa: E402
 _R = 'aggregates/rolling_stats.py'
 _C = 'aggregates/classification.py'
 VARIANTS = [
+    B('minmax-nan-skipped-per-batch-only', _R,
+      '    self._min = np.minimum(self._min, np.min(inputs, axis=self.axis))\n    self._max = np.maximum(self._max, np.max(inputs, axis=self.axis))',
+      '    self._min = np.minimum(self._min, np.nanmin(inputs, axis=self.axis))\n    self._max = np.maximum(self._max, np.nanmax(inputs, axis=self.axis))', 'R-C01-17'),
+    B('pattern-frequency-scans-the-joined-batch', 'aggregates/text.py',
+      '    for pattern in self.patterns:\n      for text in texts:',
+      "    for pattern in self.patterns:\n      if self.count_duplicate and texts:\n        batch_frquency_state.counter[pattern] += len(re.findall(r'(?=({}))'.format(re.escape(pattern)), ' '.join(texts)))\n        continue\n      for text in texts:", 'R-C01-18'),
     B('revert-variance-merge-plain-sum', _R,
       '        math_utils.nanadd(\n            prev_count_ratio * self._var, other_count_ratio * other.var\n        )\n',
       '        prev_count_ratio * self._var\n        + other_count_ratio * other.var\n', 'R-C01-17'),
